@@ -1624,7 +1624,8 @@ def error_scenarios(rng, count):
     kinds = ["type-add", "type-call", "name", "index", "value-derives", "attribute", "runtime-pop", "throw-string", "throw-number",
              "throw-error", "throw-subclass", "host-AttributeError", "host-CompileError", "host-ImportError", "host-IndexError",
              "host-NameError", "host-RuntimeError", "host-TypeError", "host-ValueError", "arity", "stack-overflow", "set-field", "range-type",
-             "throw-deep-subclass", "throw-builtin-subclass", "recursive-name", "recursive-throw"]
+             "throw-deep-subclass", "throw-builtin-subclass", "recursive-name", "recursive-throw", "recursive-through-finally",
+             "recursive-builtin-through-finally"]
     links = ["fn", "method", "static", "lambda", "fiber", "ctor", "bound"]
     for k in range(count):
         b = Builder()
@@ -1642,10 +1643,10 @@ def error_scenarios(rng, count):
         b.class_("ParseErr", sup="ValueError"); b.method("at", ["c"], "ctor"); b.expr(setf(b.v("self"), "context", b.v("c"))); b.end(); b.end()
         # the failure happens in a finally block while another exception is waiting (not for the recursion kind: 64 nested
         # finally blocks each interrupted by the overflow are the subject of C08's findings, not of error reporting)
-        in_finally = rng.random() < 0.2 and kind != "stack-overflow"
+        in_finally = rng.random() < 0.2 and kind != "stack-overflow" and not kind.endswith("through-finally")
         # the failing statement sits in the body of a try statement that has a finally block but no catch (here, and / or in callers):
         # the exception passes THROUGH finally blocks on its way out, and the report must still name the failing statement's line
-        through = "none" if (in_finally or kind == "stack-overflow") else rng.choice(["none", "none", "self", "caller", "both"])
+        through = "none" if (in_finally or kind == "stack-overflow" or kind.endswith("through-finally")) else rng.choice(["none", "none", "self", "caller", "both"])
         b.class_("Host", ctor="new")
         for i, link in enumerate(chain):
             if link in ("method", "bound"):
@@ -1661,9 +1662,10 @@ def error_scenarios(rng, count):
         n = len(chain)
         if kind.startswith("recursive-"):
             b.var("depth", lit(0))
+        rec_plain = kind in ("recursive-name", "recursive-throw")
         b.fn("step%d" % n, ["arg"])
         b.var("local", lit("live"))
-        if kind.startswith("recursive-"):
+        if rec_plain:
             # the failing function calls itself three times through ONE call site first: the trace has one entry per active call,
             # three of them identical
             b.if_(bin_("<", b.v("depth"), lit(3))); b.expr(b.assign("depth", bin_("+", b.v("depth"), lit(1)))); b.ret(call(b.v("step%d" % n), b.v("arg"))); b.end()
@@ -1700,7 +1702,23 @@ def error_scenarios(rng, count):
                 b.try_(); b.var("intry", lit("try local")); fail0(); b.print(lit("unreached")); b.finally_(); b.print(tup(lit("finally of the failing function"), b.v("local"))); b.end()
             else:
                 fail0()
-        if caught_at == n:
+        if kind.endswith("through-finally"):
+            # the failing function has called ITSELF from inside a try body with a finally block: the exception raised by the innermost
+            # activation passes through the finally blocks of the outer activations of the same function, whose trace entries must name
+            # where THEY are (the end of their finally block), not the line the innermost activation raised at
+            def rec_body():
+                b.try_()
+                b.if_(bin_("<", b.v("depth"), lit(2))); b.expr(b.assign("depth", bin_("+", b.v("depth"), lit(1)))); b.expr(call(b.v("step%d" % n), b.v("arg"))); b.end()
+                if kind == "recursive-through-finally":
+                    b.throw(lit("thrown at the bottom"))
+                else:
+                    b.print(idx(vec(lit(1)), lit(7)))
+                b.finally_(); b.print(tup(lit("unwinding"), b.v("depth"), b.v("local"))); b.end()
+            if caught_at == n:
+                b.try_(); rec_body(); b.catch("e"); b.print(tup(lit("caught"), call(b.v("type"), b.v("e")))); b.print(b.v("local")); b.end()
+            else:
+                rec_body()
+        elif caught_at == n:
             b.try_(); fail(); b.catch("e"); b.print(tup(lit("caught"), call(b.v("type"), b.v("e")))); b.print(b.v("local")); b.end()
         else:
             fail()
